@@ -199,6 +199,16 @@ def build(case):
                 if cu.get(key + '_block') is not None:
                     root_attrs.append([at, 'DW_FORM_sec_offset', None])
                     root_vals.append({'v': exp['blocks'][key][cu[key + '_block']]['offset_table_offset']})
+        elif cu.get('gnu_bases'):
+            # a GNU Fission skeleton unit (pre-v5): DW_AT_GNU_ranges_base / DW_AT_GNU_addr_base describe the lists and addresses of the
+            # split (.dwo) unit; a DW_AT_ranges / DW_AT_location of this unit itself stays a plain section offset
+            bform = 'DW_FORM_sec_offset' if ver >= 4 else ('DW_FORM_data4' if fmt == 32 else 'DW_FORM_data8')
+            for at, v in zip((0x2132, 0x2133), cu['gnu_bases']):
+                if v is not None:
+                    root_attrs.append([at, bform, None])
+                    root_vals.append({'v': v})
+            root_attrs.append([0x2130, 'DW_FORM_string', None])
+            root_vals.append({'s': b'x.dwo'})
         tab = [{'code': 1, 'tag': 0x11, 'children': True, 'attrs': root_attrs}]
         kids = []
         xcu = {'version': ver, 'fmt': fmt, 'dies': []}
@@ -843,6 +853,8 @@ def build_case(ch, tier):
             # locviews must come with a DW_AT_location list in the same DIE (library asserts it): keep order location, views
             dies.append(attrs)
         cu['dies'] = dies
+        if cu['version'] < 5 and ch.bool(0.3):
+            cu['gnu_bases'] = [ch.choice([None, 4, 8, 16, 0x20, ch.int(1, 300)]), ch.choice([None, 0, 8, ch.int(1, 64)])]
         case['cus'].append(cu)
     return case
 
@@ -900,6 +912,8 @@ def sweep(tier):
                                 continue
                             dies.append([{'at': at, 'form': form, 'kind': 'decoy', 'spec': decoy_spec(RndChooser(7), form)}])
                     cases.append({'le': le, 'addr_size': A, 'loc4': loc4, 'rng4': rng4, 'cus': [{'version': ver, 'fmt': fmt, 'dies': dies}]})
+                    cases.append({'le': le, 'addr_size': A, 'loc4': loc4, 'rng4': rng4,
+                                  'cus': [{'version': ver, 'fmt': fmt, 'dies': dies[:6], 'gnu_bases': [2 * A, 8]}]})
             # both generations in one file, with lists at EQUAL numeric offsets in the old and the new section (the offsets of the two
             # sections are unrelated number spaces), v4 unit first and v5 unit first
             noff = 1 if A == 4 else 5            # first v5 list at 12 + 4 * noff = 16 / 32 = size of a v4 list with one entry
